@@ -366,7 +366,7 @@ theorem shape_st_channel_addNick : Facts.shape_st_channel_addNick = some "e6a4bf
 theorem shape_st_channel_delNick : Facts.shape_st_channel_delNick = some "26492255aa1c7acd" := by decide
 
 /-- [C12,C13,C14] `st.channel.parseModes` is the body the model transcribes -/
-theorem shape_st_channel_parseModes : Facts.shape_st_channel_parseModes = some "185566cd1de87dc3" := by decide
+theorem shape_st_channel_parseModes : Facts.shape_st_channel_parseModes = some "cb8b61293249ead8" := by decide
 
 /-- [C12,C13,C14] `st.NickMode.Copy` is the body the model transcribes -/
 theorem shape_st_NickMode_Copy : Facts.shape_st_NickMode_Copy = some "71af84033dcb74d0" := by decide
